@@ -29,7 +29,7 @@ var (
 	tokEnt    = []string{"&amp;", "&lt;", "&gt;", "&quot;", "&copy;", "&nbsp;", "&ouml;", "&Dcaron;", "&ClockwiseContourIntegral;", "&ngE;", "&colon;", "&Tab;", "&NewLine;", "&lpar;", "&nosuch;", "&amp", "&#35;", "&#1234;", "&#0;", "&#065;", "&#992;", "&#x22;", "&#X22;", "&#xD06;", "&#xcab;", "&#x110000;", "&#xD800;", "&#99999999;", "&#9999999;", "&#;", "&#x;", "&#87654321;", "&#abc;", "&x;", "&#60;", "&#62;", "&#34;", "&#38;", "&#39;", "&nvlt;", "&nvgt;", "&LT;", "&GT;", "&AMP;", "&QUOT;", "&bne;", "&fjlig;", "&NotEqualTilde;", "&lt", "&Lt;", "&ThickSpace;", "&NewLine;x", "&Tab;x", "&nbsp", "&#x3C;", "&#x3e;", "&#x26;"}
 	tokURL    = []string{"http://a.b", "https://example.com/p?q=1&r=2", "http://a.b/(c)", "ftp://x.yz", "www.a.bc", "www.x.y.zz/q", "a@b.c", "foo+x@bar.example.com", "mailto:a@b.c", "javascript:alert(1)", "JaVaScRiPt:x", "vbscript:x", "file:///etc/passwd", "data:text/html,x", "data:image/png;base64,AA", "/url", "/uri \"title\"", "<http://a.b>", "<a@b.c>", "<javascript:x>", "<made-up:x>", "<http://a b>", "<>", "(/u 't')", "(<u v>)", "(/u \"t\")", "http://", "://", "x://y"}
 	tokAttr   = []string{"{#id}", "{.cls}", "{#i .c k=v}", "{k=\"v\"}", "{data-x=y}", "{onclick=\"x\"}", "{#a #b}", "{.a.b}", "{k='v'}", "{k=v w}", "{", "}", " {#x}", "{#é}", "{k=\"a&b<c>\"}", "{k=\"a\\\"b\"}", "{style=\"x\"}", "{a=1 a=2}", "{title=\"<\"}", "{#}", "{.}", "{=}", "{k=}", "{k=\"", "{#id .c}\n", "{class=a .b}", "{class=a class=b}", "{.a class=b}", "{class=a .b .c}", "{id=1}", "{id=1.5}", "{id=-2}", "{id=true}", "{id=null}", "{class=1 .x}", "{k=1e3}", "{id=[1]}", "{id={a=b}}", "{id=\"x\" id=2}", "# h {class=foo .bar}\n", "# h {id=1}\n", "h {id=0}\n===\n", "{k=false .c}", "{class=\"a\" class=b}"}
-	tokExt    = []string{"~~", "~", "~~~", "~~a~~", "|", "|-|", "|:-:|", "| - | - |", "|a|b|\n|-|-|\n|c|d|", "---|---", ":--", "--:", ":-:", "\\|", "[^1]", "[^1]:", "[^a]: ", "[^", "^]", "[ ]", "[x]", "[X] ", "- [ ] ", "- [x] ", ": ", ":", "\n: ", "\n:   ", "'", "\"", "--", "---", "...", "<<", ">>", "''", "\"a\"", "'a'", "a's", "\\ ", "(c)", "1'", "''\"", "'ve", "'re", "'ll", "'d", "'m", "'t", "'s", " 've\n", " 're\n\n", "we 'll", "I've", "'r", "'v", "\"'", "--\n", "...\n", "<<\n", "| `x` \\| y |", "| `p\\|q` |", "`x\\|y` | z\n--|--|--\n", "|a|\n|-|\n| `p\\|q` |\n", "|a|b|\n|-|-|\n| `x` \\| y | z |\n", "|`a\\|b`|\n|-|\n|`c\\|d`|e\\|f|\n", "\\|`", "`\\|"}
+	tokExt    = []string{"~~", "~", "~~~", "~~a~~", "|", "|-|", "|:-:|", "| - | - |", "|a|b|\n|-|-|\n|c|d|", "---|---", ":--", "--:", ":-:", "\\|", "[^1]", "[^1]:", "[^a]: ", "[^", "^]", "[ ]", "[x]", "[X] ", "- [ ] ", "- [x] ", ": ", ":", "\n: ", "\n:   ", "'", "\"", "--", "---", "...", "<<", ">>", "''", "\"a\"", "'a'", "a's", "\\ ", "(c)", "1'", "''\"", "'ve", "'re", "'ll", "'d", "'m", "'t", "'s", " 've\n", " 're\n\n", "we 'll", "I've", "'r", "'v", "\"'", "--\n", "...\n", "<<\n", "| `x` \\| y |", "| `p\\|q` |", "`x\\|y` | z\n--|--|--\n", "|a|\n|-|\n| `p\\|q` |\n", "|a|b|\n|-|-|\n| `x` \\| y | z |\n", "|`a\\|b`|\n|-|\n|`c\\|d`|e\\|f|\n", "\\|`", "`\\|", "|a|\n|-|\n|`<b>\\|`|\n", "`<\\|`", "`\"\\|&`"}
 	tokHost   = []string{"\x00", "\x00\x00", "\x80", "\xbf", "\x80\x80", "\xc3", "\xe6\x97", "\xf0\x9f\x98", "\xc0\xaf", "\xff", "\xfe", "\xef\xbb\xbf", "\u200b", "\u00a0", "\u2003", "\u3000", "　", "、", "。", "（", "）", "「", "」", "ｱ", "가", "😀", "\x01", "\x1b", "\x7f", "\x0b", "\x0c", "\u2028", "\u0085", "İ", "ǅ", "ſ", "K", "ς",
 		"日本 \n語", "語\n語", "a\n語", "語\na", "、\n語", "語 \n 語", "語\\\n語", "語  \n語", "語\n*語*", "*語*\n語", "語\n`a`", "ｱ\nｲ", "가\n나", "語\n\x80", "\x80\n語", "語\n", "\n語"}
 )
